@@ -159,41 +159,70 @@ def decorate(table, kind, rng):
 
 
 # ----------------------------------------------------------------------------- small inputs
-def base_ts(rng, multi=False, extras=False, min_muts=1, n=None, L=None):
-    """small msprime tree sequence with >= min_muts mutations; multi: several mutations per
-    site (finite sites); extras: individuals, populations, migrations"""
+def _batch(rng, multi, extras, min_muts, max_muts, n, L, reps=12):
+    """suitable tree sequences from ONE simulator set-up (msprime's set-up costs ~0.25 s,
+    a replicate ~1 ms)"""
     import msprime
-    for _ in range(200):
-        n_ = n or rng.randint(2, 5)
-        L_ = L or rng.choice([5, 20, 100])
-        seed = rng.randrange(1, 2 ** 31 - 1)
-        kw = {}
-        if extras:
-            demog = msprime.Demography()
-            demog.add_population(name="A", initial_size=1.0)
-            demog.add_population(name="B", initial_size=1.0)
-            demog.add_population(name="C", initial_size=1.0)
-            demog.add_population_split(time=rng.choice([0.5, 2.0]), derived=["A", "B"], ancestral="C")
-            demog.set_symmetric_migration_rate(["A", "B"], rng.choice([0.0, 0.5]))
-            ploidy = rng.choice([1, 2])
-            k = max(1, n_ // ploidy)
-            ts = msprime.sim_ancestry(samples={"A": k, "B": max(1, k // 2)}, demography=demog, ploidy=ploidy,
-                                      sequence_length=L_, recombination_rate=rng.choice([0, 0.02, 0.2]),
-                                      random_seed=seed, record_migrations=True)
-        else:
-            ts = msprime.sim_ancestry(n_, ploidy=1, sequence_length=L_, population_size=1.0,
-                                      recombination_rate=rng.choice([0, 0.02, 0.2]), random_seed=seed)
-        rate = rng.choice([0.05, 0.2, 1.0]) if multi else rng.choice([0.02, 0.1])
-        ts = msprime.sim_mutations(ts, rate=rate, random_seed=seed,
+    n_ = n or rng.randint(2, 4)
+    L_ = L or (rng.choice([3, 5, 10]) if multi else rng.choice([5, 20, 100]))
+    seed = rng.randrange(1, 2 ** 31 - 1)
+    rec = rng.choice([0, 0.02, 0.2]) * 5.0 / L_
+    if extras:
+        demog = msprime.Demography()
+        demog.add_population(name="A", initial_size=1.0)
+        demog.add_population(name="B", initial_size=1.0)
+        demog.add_population(name="C", initial_size=1.0)
+        demog.add_population_split(time=rng.choice([0.5, 2.0]), derived=["A", "B"], ancestral="C")
+        demog.set_symmetric_migration_rate(["A", "B"], rng.choice([0.0, 0.5]))
+        ploidy = rng.choice([1, 2])
+        k = max(1, n_ // ploidy)
+        it = msprime.sim_ancestry(samples={"A": k, "B": max(1, k // 2)}, demography=demog, ploidy=ploidy,
+                                  sequence_length=L_, recombination_rate=rec, random_seed=seed,
+                                  record_migrations=True, num_replicates=reps)
+    else:
+        it = msprime.sim_ancestry(n_, ploidy=1, sequence_length=L_, population_size=1.0,
+                                  recombination_rate=rec, random_seed=seed, num_replicates=reps)
+    out = []
+    for j, ts in enumerate(it):
+        rate = rng.choice([1.0, 2.0, 4.0]) / L_ * (1.5 if multi else 1.0)
+        ts = msprime.sim_mutations(ts, rate=rate, random_seed=seed + j + 1,
                                    discrete_genome=True if multi else rng.random() < 0.5)
-        if ts.num_mutations < min_muts:
+        if not (min_muts <= ts.num_mutations <= max_muts):
             continue
-        if not multi and any(len(s.mutations) > 1 for s in ts.sites()):
+        has_multi = any(len(s.mutations) > 1 for s in ts.sites())
+        if has_multi != bool(multi):
             continue
-        if multi and not any(len(s.mutations) > 1 for s in ts.sites()):
-            continue
-        return ts
+        out.append(ts)
+    return out
+
+
+def base_ts(rng, multi=False, extras=False, min_muts=1, max_muts=12, n=None, L=None):
+    """small msprime tree sequence with min_muts..max_muts mutations; multi: several mutations
+    at some site (finite sites), otherwise at most one per site; extras: individuals,
+    populations, migrations"""
+    for _ in range(200):
+        got = _batch(rng, multi, extras, min_muts, max_muts, n, L, reps=6)
+        if got:
+            return got[0]
     raise RuntimeError("no suitable tree sequence")
+
+
+_POOLS = {}
+
+
+def pooled_ts(rng, size=10, **kw):
+    """draw from a per-run pool of small inputs (filled batch-wise)"""
+    key = tuple(sorted(kw.items()))
+    pool = _POOLS.setdefault(key, [])
+    tries = 0
+    while len(pool) < size and tries < 200:
+        tries += 1
+        a = dict(multi=False, extras=False, min_muts=1, max_muts=12, n=None, L=None)
+        a.update(kw)
+        pool.extend(_batch(rng, a["multi"], a["extras"], a["min_muts"], a["max_muts"], a["n"], a["L"])[:3])
+    if not pool:
+        raise RuntimeError("no suitable tree sequence")
+    return rng.choice(pool)
 
 
 def random_values(rng, n, style=None):
@@ -374,7 +403,8 @@ class MetaCase:
                     dd.update((("mn", np.float64(m)), ("vr", np.float64(v))))
                     self.enc_tab.append((sid, row, self._encode(schema, dd)))
 
-    def coq_term(self):
+    def coq_parts(self):
+        """(decode table, encode table, the call with @DT@ / @ET@ standing for them)"""
         def cdec(e):
             sid, bid, dec = e
             r = "DecCrash" if dec[0] == "crash" else "(DecRow %s)" % crow(dec[1])
@@ -388,8 +418,12 @@ class MetaCase:
         sm = {None: "None", True: "(Some true)", False: "(Some false)"}[self.sm]
         t = "(mkMT %s %s)" % (copt(self.in_sid, cZ), clist(self.row_ids, cbytes))
         var = "None" if self.var is None else "(Some %s)" % clist(self.var, cfloat)
-        return "(run_set_meta (%s : dec_tab) (%s : enc_tab) %s %s %s %s 0%%Z)" % (
-            clist(self.dec_tab, cdec), clist(self.enc_tab, cenc), sm, t, clist(self.mean, cfloat), var)
+        call = "(run_set_meta @DT@ @ET@ %s %s %s %s 0%%Z)" % (sm, t, clist(self.mean, cfloat), var)
+        return clist(self.dec_tab, cdec), clist(self.enc_tab, cenc), call
+
+    def coq_term(self):
+        d, e, call = self.coq_parts()
+        return call.replace("@DT@", "(%s : dec_tab)" % d).replace("@ET@", "(%s : enc_tab)" % e)
 
     def impl_result(self, table, exc, events):
         """canonical (kind, schema-or-exn, rows, log) of what the implementation did"""
@@ -405,6 +439,28 @@ class MetaCase:
         rows = [bytes(b) for b in tskit.unpack_bytes(table.metadata, table.metadata_offset)]
         return (0, self.schema_id(table.metadata_schema),
                 [[] if len(b) == 0 else [self.bid.ids.get(b, -2)] for b in rows], [e[0] for e in events])
+
+
+def eval_meta_cases(ctx, mcs, chunk=300, tag="setmeta"):
+    """run the Coq model on a list of MetaCase; identical codec tables are defined once"""
+    out = []
+    for i in range(0, len(mcs), chunk):
+        names = {}
+        defs = []
+        calls = []
+        for mc in mcs[i:i + chunk]:
+            d, e, call = mc.coq_parts()
+            ref = []
+            for txt, ty in ((d, "dec_tab"), (e, "enc_tab")):
+                if (txt, ty) not in names:
+                    names[(txt, ty)] = "tab%d" % len(names)
+                    defs.append("Definition %s : %s := %s." % (names[(txt, ty)], ty, txt))
+                ref.append(names[(txt, ty)])
+            calls.append(call.replace("@DT@", ref[0]).replace("@ET@", ref[1]))
+        body = "From Coq Require Import String.\n" + "\n".join(defs) + \
+            "\nDefinition cases := %s.\nEval vm_compute in cases.\n" % clist(calls)
+        out += [canon_model(r) for r in ctx.coq_eval(body, requires=("model.Glue",), tag=tag)[0]]
+    return out
 
 
 def canon_model(res):
